@@ -173,7 +173,7 @@ class C16(Check):
     level_note_extra = 'containment is lexical (symbolic links are outside the property\'s "normalised location")'
     anchors = ['ombott/static_stream.py']
     rule = ('os.path.normpath/join/abspath/strip against the model on generated paths and exhaustively over the '
-            'alphabet {a . /} (length <= 8 quick / 10 thorough) and over segment lists from {a . .. ""} with 0-3 '
+            'alphabet {a . /} (length <= 9 quick / 10 thorough) and over segment lists from {a . .. ""} with 0-3 '
             'leading slashes; static_file on a real temporary tree (decoys above and beside the root, siblings root2 '
             'rootx root.bak) for 32 root spellings (absolute/relative, trailing separators, dot segments, other '
             'working directories) x file names built from names, ".", "..", "", sibling names, absolute prefixes and '
@@ -186,7 +186,7 @@ class C16(Check):
                    'POSIX path semantics (os.sep == "/"); on Windows os.path is ntpath and the model does not apply']
 
     def budget(self, tier, escalated):
-        n = 1500 if tier == 'quick' else 25000
+        n = 2500 if tier == 'quick' else 25000
         return n * (3 if escalated and tier == 'quick' else 1)
 
     def nontrivial(self, sample):
@@ -247,7 +247,7 @@ class C16(Check):
 
     def _case(self, rng):
         cwd_rel, root = rng.choice(ROOTS)
-        return (cwd_rel, root, gen_filename(rng), rng.choice(['GET', 'GET', 'GET', 'HEAD']), rng.random() < .15)
+        return (cwd_rel, root, gen_filename(rng), rng.choice(['GET', 'GET', 'GET', 'HEAD']), rng.random() < .25)
 
     def corr(self, rng, n):
         self.stats = st = {}
@@ -258,7 +258,7 @@ class C16(Check):
 
         # (a) the path functions against os.path
         paths = [gen_path(rng) for _ in range(n * 4)]
-        maxlen = 8 if n < 10000 else 10
+        maxlen = 9 if n < 10000 else 10
         for L in range(0, maxlen + 1):
             paths += [''.join(t) for t in itertools.product('a./', repeat=L)]
         nseg = 5 if n < 10000 else 6
@@ -373,6 +373,7 @@ class C16(Check):
                                             dict(cwd=c[0], root=c[1], filename=c[2], method=c[3], ims=c[4])))
         finally:
             self._teardown()
+        findings.sort(key=lambda f: len(f.replay['filename']) + len(f.replay['root']))   # smallest input per class
         return evals, findings
 
     def replay(self, data):
